@@ -254,7 +254,9 @@ def const_str(repo: Repo, mod: Module, e: ast.AST, depth: int = 0) -> Optional[s
     if isinstance(e, ast.Constant):
         return e.value if isinstance(e.value, str) else None
     if isinstance(e, ast.JoinedStr):
-        parts = [const_str(repo, mod, v, depth + 1) if not isinstance(v, ast.FormattedValue) else None for v in e.values]
+        # a slot without format spec and with no conversion (or !s) whose value is a constant string contributes that string
+        parts = [const_str(repo, mod, v, depth + 1) if not isinstance(v, ast.FormattedValue) else
+                 (const_str(repo, mod, v.value, depth + 1) if v.format_spec is None and v.conversion in (-1, 115) else None) for v in e.values]
         return "".join(parts) if all(p is not None for p in parts) else None  # type: ignore[arg-type]
     if isinstance(e, ast.BinOp) and isinstance(e.op, ast.Add):
         a, b = const_str(repo, mod, e.left, depth + 1), const_str(repo, mod, e.right, depth + 1)
@@ -424,3 +426,357 @@ def add_leaves(e: ast.AST) -> list[ast.AST]:
     if isinstance(e, ast.BinOp) and isinstance(e.op, ast.Add):
         return add_leaves(e.left) + add_leaves(e.right)
     return [e]
+
+
+# ------------------------------------------------------------------------------------------------ third layer (rules v-z)
+def attr_reads(fn: ast.AST, attr: str) -> list[tuple]:
+    """(expression, normalised receiver) of every read of the attribute `attr` in fn: `X.attr` and `getattr(X, "attr"[, default])`"""
+    out = []
+    for n in own_nodes(fn):
+        if isinstance(n, ast.Attribute) and n.attr == attr and isinstance(n.ctx, ast.Load):
+            out.append((n, norm(n.value)))
+        elif isinstance(n, ast.Call) and isinstance(n.func, ast.Name) and n.func.id == "getattr" and len(n.args) >= 2 \
+                and isinstance(n.args[1], ast.Constant) and n.args[1].value == attr:
+            out.append((n, norm(n.args[0])))
+    return out
+
+
+def positive_guards(mod: Module, fn: ast.AST, node: ast.AST) -> list[ast.AST]:
+    """the expressions known to be true when `node` is evaluated, as far as the shape of the code says: tests of the enclosing `if` / conditional
+    expressions on whose true side the node stands, earlier operands of an enclosing `and`, the operand of a `not` test on whose false side it stands,
+    and the negated tests of earlier early-exit statements (`if not T: return / raise / continue / break`) of the enclosing blocks.
+    A top-level `and` is split into its operands."""
+    out: list[ast.AST] = []
+
+    def conj(t: ast.AST, positive: bool) -> None:
+        if positive:
+            if isinstance(t, ast.BoolOp) and isinstance(t.op, ast.And):
+                for v in t.values:
+                    conj(v, True)
+            elif isinstance(t, ast.UnaryOp) and isinstance(t.op, ast.Not):
+                conj(t.operand, False)
+            else:
+                out.append(t)
+        else:
+            if isinstance(t, ast.UnaryOp) and isinstance(t.op, ast.Not):
+                conj(t.operand, True)
+            elif isinstance(t, ast.BoolOp) and isinstance(t.op, ast.Or):
+                for v in t.values:
+                    conj(v, False)
+
+    child = node
+    for p in mod.parents(node):
+        if isinstance(p, ast.If) and child is not p.test:
+            conj(p.test, any(child is s for s in p.body))
+        elif isinstance(p, ast.IfExp) and child is not p.test:
+            conj(p.test, child is p.body)
+        elif isinstance(p, ast.BoolOp):
+            k = next(i for i, v in enumerate(p.values) if v is child)
+            for v in p.values[:k]:
+                conj(v, isinstance(p.op, ast.And))
+        # early exits before the statement in the same block
+        for field in ("body", "orelse", "finalbody"):
+            blk = getattr(p, field, None)
+            if isinstance(blk, list) and any(child is s for s in blk):
+                for s in blk[: next(i for i, x in enumerate(blk) if x is child)]:
+                    if isinstance(s, ast.If) and not s.orelse and s.body and isinstance(s.body[-1], (ast.Return, ast.Raise, ast.Continue, ast.Break)):
+                        conj(s.test, False)
+        if p is fn:
+            break
+        child = p
+    return out
+
+
+def bound_arg(call: ast.Call, callee: ast.AST, param: str, bound_method: bool) -> Optional[ast.AST]:
+    """the expression a call site binds to the parameter `param` of callee (None: the call leaves it to the default)"""
+    for k in call.keywords:
+        if k.arg == param:
+            return k.value
+    ps = params(callee)
+    if bound_method and ps:
+        ps = ps[1:]
+    if param in ps:
+        i = ps.index(param)
+        if i < len(call.args) and not any(isinstance(a, ast.Starred) for a in call.args[: i + 1]):
+            return call.args[i]
+    return None
+
+
+def flag_sources(fn: ast.AST, e: ast.AST) -> tuple:
+    """(truth constants, names) that the value of e is computed from by boolean operators, comparisons and conditional expressions, following local names to
+    their bindings in fn.  Calls are opaque: what a call returns is not `written down` by the caller, whatever its arguments are."""
+    consts: list = []
+    names: set = set()
+    todo = [e]
+    while todo:
+        stack = [todo.pop()]
+        while stack:
+            n = stack.pop()
+            if isinstance(n, (ast.Call, ast.Lambda, ast.ListComp, ast.SetComp, ast.DictComp, ast.GeneratorExp)):
+                continue
+            if isinstance(n, ast.Constant) and isinstance(n.value, bool):
+                consts.append(n)
+            if isinstance(n, ast.Name) and isinstance(n.ctx, ast.Load) and n.id not in names:
+                names.add(n.id)
+                todo.extend(local_defs(fn, n.id))
+            stack.extend(ast.iter_child_nodes(n))
+    return consts, names
+
+
+def caller_constant(mods: list, fn_name: str, callee: ast.AST, param: str, depth: int = 0, seen: Optional[set] = None) -> Optional[tuple]:
+    """does the value of `param` of the method `fn_name` go back to a truth constant that a call site writes down?  Follows, through the call sites
+    `<x>.fn_name(...)` in `mods`, the expression bound to the parameter, the local bindings it reads in the caller, and the caller's own parameters
+    (three levels).  Returns (module, qualified caller, constant expression) or None."""
+    seen = seen if seen is not None else set()
+    if depth > 3 or (fn_name, param) in seen:
+        return None
+    seen.add((fn_name, param))
+    for m in mods:
+        for q, f in m.functions():
+            for c in own_nodes(f):
+                if not (isinstance(c, ast.Call) and isinstance(c.func, ast.Attribute) and c.func.attr == fn_name):
+                    continue
+                e = bound_arg(c, callee, param, True)
+                if e is None:
+                    continue
+                consts, names = flag_sources(f, e)
+                if consts:
+                    return m, q, consts[0]
+                for p in params(f)[1:] if "." in q else params(f):
+                    if p in names:
+                        r = caller_constant(mods, f.name, f, p, depth + 1, seen)  # type: ignore[attr-defined]
+                        if r is not None:
+                            return r
+    return None
+
+
+def alternatives(mod: Module, fn: ast.AST) -> Iterator[tuple]:
+    """(node, test, value if true, value if false) of every two-way selection of a value in fn: a conditional expression, or an `if`/`else`
+    whose two sides bind the same name (the last binding of each side counts) or both return"""
+    for n in own_nodes(fn):
+        if isinstance(n, ast.IfExp):
+            yield n, n.test, n.body, n.orelse
+        elif isinstance(n, ast.If) and n.orelse:
+            def binds(blk):
+                d = {}
+                for st in blk:
+                    if isinstance(st, ast.Assign) and len(st.targets) == 1 and isinstance(st.targets[0], ast.Name):
+                        d[st.targets[0].id] = st.value
+                    elif isinstance(st, ast.AnnAssign) and isinstance(st.target, ast.Name) and st.value is not None:
+                        d[st.target.id] = st.value
+                    elif isinstance(st, ast.Return) and st.value is not None:
+                        d["<return>"] = st.value
+                return d
+            a, b = binds(n.body), binds(n.orelse)
+            for k in a:
+                if k in b:
+                    yield n, n.test, a[k], b[k]
+
+
+# ------------------------------------------------------------------------------------------------ output side: how text is assembled
+def resolve_function(repo: Repo, mod: Module, name: str, depth: int = 0) -> Optional[tuple]:
+    """(module, FunctionDef) that the bare name `name` denotes in mod: a module-level def, or one imported with `from m import name`"""
+    if depth > 4:
+        return None
+    d = mod.defs.get(name)
+    if isinstance(d, (ast.FunctionDef, ast.AsyncFunctionDef)):
+        return mod, d
+    if d is not None:
+        return None
+    for st in ast.walk(mod.tree):
+        if isinstance(st, ast.ImportFrom):
+            for a in st.names:
+                if (a.asname or a.name) == name:
+                    if st.level:
+                        pkg = mod.name.split(".")
+                        if not mod.rel.endswith("__init__.py"):
+                            pkg = pkg[:-1]
+                        pkg = pkg[: len(pkg) - (st.level - 1)]
+                        target = ".".join(pkg + ([st.module] if st.module else []))
+                    else:
+                        target = st.module or ""
+                    if target in repo.modules:
+                        return resolve_function(repo, repo.modules[target], a.name, depth + 1)
+    return None
+
+
+def format_parts(e: ast.AST) -> Optional[tuple]:
+    """(constant text pieces, slot expressions) of an expression that assembles a string from a template written in the source: `'T' % x`, `'T' % (x, y)`
+    (conversions %s only), an f-string (slots without format spec, conversion none or !s), `'T'.format(x, y)` (auto-numbered {} only) and a `+` chain of string
+    constants and values.  len(pieces) == len(slots) + 1.  None: not such an expression (or a template this reading does not cover)."""
+    if isinstance(e, ast.JoinedStr):
+        texts, slots = [""], []
+        for v in e.values:
+            if isinstance(v, ast.Constant) and isinstance(v.value, str):
+                texts[-1] += v.value
+            elif isinstance(v, ast.FormattedValue) and v.format_spec is None and v.conversion in (-1, 115):
+                slots.append(v.value)
+                texts.append("")
+            else:
+                return None
+        return texts, slots
+    if isinstance(e, ast.BinOp) and isinstance(e.op, ast.Mod) and isinstance(e.left, ast.Constant) and isinstance(e.left.value, str):
+        texts = e.left.value.split("%s")
+        if any("%" in t.replace("%%", "") for t in texts):
+            return None
+        slots = list(e.right.elts) if isinstance(e.right, ast.Tuple) else [e.right]
+        if len(slots) != len(texts) - 1 or any(isinstance(s_, ast.Starred) for s_ in slots):
+            return None
+        return [t.replace("%%", "%") for t in texts], slots
+    if isinstance(e, ast.Call) and isinstance(e.func, ast.Attribute) and e.func.attr == "format" and isinstance(e.func.value, ast.Constant) \
+            and isinstance(e.func.value.value, str) and not e.keywords:
+        texts = e.func.value.value.split("{}")
+        if any("{" in t.replace("{{", "") or "}" in t.replace("}}", "") for t in texts):
+            return None
+        if len(e.args) != len(texts) - 1 or any(isinstance(s_, ast.Starred) for s_ in e.args):
+            return None
+        return [t.replace("{{", "{").replace("}}", "}") for t in texts], list(e.args)
+    if isinstance(e, ast.BinOp) and isinstance(e.op, ast.Add):
+        texts, slots = [""], []
+        for leaf in add_leaves(e):
+            if isinstance(leaf, ast.Constant) and isinstance(leaf.value, str):
+                texts[-1] += leaf.value
+            elif isinstance(leaf, ast.Constant):
+                return None
+            else:
+                slots.append(leaf)
+                texts.append("")
+        return (texts, slots) if slots and any(texts) else None
+    return None
+
+
+def quoted_slot(e: ast.AST) -> Optional[ast.AST]:
+    """the value an expression puts between two double quotes and nothing else: `'"%s"' % v`, f'"{v}"', '"' + v + '"', '"{}"'.format(v)"""
+    fp = format_parts(e)
+    if fp is not None and fp[0] == ['"', '"']:
+        return fp[1][0]
+    return None
+
+
+def single_local_def(fn: ast.AST, e: ast.AST) -> Optional[ast.AST]:
+    """the value of the one binding of the local name e in fn (None: not a name, a parameter, bound more than once or by a loop / with / unpacking)"""
+    if not isinstance(e, ast.Name):
+        return None
+    vals = []
+    for st in own_nodes(fn):
+        if isinstance(st, ast.Name) and st.id == e.id and isinstance(st.ctx, (ast.Store, ast.Del)):
+            vals.append(st)
+    if len(vals) != 1:
+        return None
+    for st in own_nodes(fn):
+        if isinstance(st, ast.Assign) and len(st.targets) == 1 and st.targets[0] is vals[0]:
+            return st.value
+        if isinstance(st, ast.AnnAssign) and st.target is vals[0] and st.value is not None:
+            return st.value
+    return None
+
+
+def replace_calls(e: ast.AST) -> tuple:
+    """X.replace(a, b).replace(c, d) with constant arguments -> (X, [(a, b), (c, d)], [the Call nodes])"""
+    pairs, calls, cur = [], [], e
+    while isinstance(cur, ast.Call) and isinstance(cur.func, ast.Attribute) and cur.func.attr == "replace" and len(cur.args) == 2 and not cur.keywords \
+            and all(isinstance(a, ast.Constant) and isinstance(a.value, str) for a in cur.args):
+        pairs.append((cur.args[0].value, cur.args[1].value))  # type: ignore[attr-defined]
+        calls.append(cur)
+        cur = cur.func.value
+    pairs.reverse()
+    return cur, pairs, calls
+
+
+def const_translation_table(repo: Repo, mod: Module, fn: Optional[ast.AST], e: ast.AST, depth: int = 0) -> Optional[list]:
+    """[(character, replacement text or None)] of a constant table handed to str.translate: str.maketrans({..}) / str.maketrans(x, y[, z]) of constants, a dict
+    display keyed by code points (int constants / ord('c')), or a local / module-level name bound once to one.  None: not foldable."""
+    if depth > 6:
+        return None
+    if isinstance(e, ast.Name):
+        if fn is not None:
+            v = single_local_def(fn, e)
+            if v is not None:
+                return const_translation_table(repo, mod, fn, v, depth + 1)
+            a = fn.args  # type: ignore[attr-defined]
+            if e.id in {x.arg for x in a.posonlyargs + a.args + a.kwonlyargs} or any(isinstance(n, ast.Name) and n.id == e.id and isinstance(n.ctx, ast.Store) for n in own_nodes(fn)):
+                return None  # a parameter, or a local this reading does not follow
+        b = _module_binding(repo, mod, e.id)
+        return const_translation_table(repo, b[0], None, b[1], depth + 1) if b else None
+
+    def key(k: Optional[ast.AST], ordinals_only: bool) -> Optional[str]:
+        if isinstance(k, ast.Constant) and isinstance(k.value, int) and not isinstance(k.value, bool) and 0 <= k.value <= MAXCP:
+            return chr(k.value)
+        if isinstance(k, ast.Call) and isinstance(k.func, ast.Name) and k.func.id == "ord" and len(k.args) == 1:
+            s = const_str(repo, mod, k.args[0])
+            return s if s is not None and len(s) == 1 else None
+        if not ordinals_only and k is not None:
+            s = const_str(repo, mod, k)
+            return s if s is not None and len(s) == 1 else None
+        return None
+
+    def table(d: ast.Dict, ordinals_only: bool) -> Optional[list]:
+        out = []
+        for k, v in zip(d.keys, d.values):
+            ks = key(k, ordinals_only)
+            if ks is None:
+                return None
+            if isinstance(v, ast.Constant) and v.value is None:
+                out.append((ks, None))
+            elif isinstance(v, ast.Constant) and isinstance(v.value, int) and not isinstance(v.value, bool):
+                out.append((ks, chr(v.value)))
+            else:
+                vs = const_str(repo, mod, v)
+                if vs is None:
+                    return None
+                out.append((ks, vs))
+        return out
+
+    if isinstance(e, ast.Dict):
+        return table(e, True)  # str.translate looks code points up: a key that is a character never matches
+    if isinstance(e, ast.Call) and isinstance(e.func, ast.Attribute) and e.func.attr == "maketrans" and norm(e.func.value) in ("str", "bytes") and not e.keywords:
+        if len(e.args) == 1:
+            d = e.args[0]
+            if isinstance(d, ast.Name):
+                d2 = single_local_def(fn, d) if fn is not None else None
+                if d2 is None:
+                    b = _module_binding(repo, mod, d.id)
+                    d2 = b[1] if b and b[0] is mod else None
+                d = d2  # type: ignore[assignment]
+            return table(d, False) if isinstance(d, ast.Dict) else None
+        if len(e.args) in (2, 3):
+            vals = [const_str(repo, mod, a) for a in e.args]
+            if any(v is None for v in vals) or len(vals[0]) != len(vals[1]):  # type: ignore[arg-type]
+                return None
+            out = [(a, b_) for a, b_ in zip(vals[0], vals[1])]  # type: ignore[arg-type]
+            if len(vals) == 3:
+                out = [(a, b_) for a, b_ in out if a not in vals[2]] + [(c, None) for c in vals[2]]  # type: ignore[operator,union-attr]
+            return out
+    return None
+
+
+class EscapeMap:
+    """how a text is escaped before it is put between quotes: a chain of str.replace calls (applied one after the other: the order matters) or one
+    str.translate with a constant table (one pass over the text: an escape is never escaped again)"""
+
+    def __init__(self, kind: str, root: ast.AST, pairs: Optional[list], calls: list, node: ast.AST):
+        self.kind, self.root, self.pairs, self.calls, self.node = kind, root, pairs, calls, node
+
+
+def escape_map(repo: Repo, mod: Module, fn: ast.AST, e: ast.AST, depth: int = 0) -> Optional[EscapeMap]:
+    """the EscapeMap that the expression e applies to a text, following a local name that is bound once; None if e is not such an application"""
+    if depth > 4:
+        return None
+    v = single_local_def(fn, e)
+    if v is not None:
+        return escape_map(repo, mod, fn, v, depth + 1)
+    root, pairs, calls = replace_calls(e)
+    if pairs:
+        inner = single_local_def(fn, root)
+        if inner is not None:
+            em = escape_map(repo, mod, fn, inner, depth + 1)
+            if em is not None and em.kind == "chain":
+                return EscapeMap("chain", em.root, (em.pairs or []) + pairs, em.calls + calls, e)
+        return EscapeMap("chain", root, pairs, calls, e)
+    if isinstance(e, ast.Call) and isinstance(e.func, ast.Attribute) and e.func.attr == "translate" and len(e.args) == 1 and not e.keywords:
+        return EscapeMap("table", e.func.value, const_translation_table(repo, mod, fn, e.args[0]), [], e)
+    return None
+
+
+def is_static(fn: ast.AST) -> bool:
+    return any(norm(d).split(".")[-1] == "staticmethod" for d in getattr(fn, "decorator_list", []))
